@@ -70,6 +70,8 @@ def _quantifier(atom, pol, loops):
 def run(ctx):
     repo = ctx.repo
     _gateset_fallback_is_exhaustive(ctx, repo)
+    from . import shared as _sh
+    _sh.measurement_rebuild_rule(ctx, 'C07.k', ['cirq-core/cirq/transformers/', 'cirq-google/cirq_google/transformers/', 'cirq-core/cirq/devices/'])
     ctx.decided += [
         'C07.a device validators: gateset test, universally quantified qubit test, pair/distance test where applicable, super() chaining',
         'C07.b router: mapped two-qubit ops appended only under is_adjacent; every emitted swap is applied to the mapping; both maps updated together under an adjacency check',
